@@ -55,20 +55,30 @@ def setup_worker(tier, ctx):
     ctx['routine'] = Subroutine.from_source(src, frontend=FP)
 
 
+FRAGILE = 'fragile'
+
+
 def values_of(ev, ast, vals):
+    """per valuation: Val | None (undefined) | FRAGILE (defined but ill-conditioned in this association)"""
     out = []
     for v in vals:
         try:
             out.append(ev(ast, v))
-        except (X.Undefined, X.Fragile):
+        except X.Undefined:
             out.append(None)
+        except X.Fragile:
+            out.append(FRAGILE)
     return out
 
 
+def ndefined(vs):
+    return sum(isinstance(x, X.Val) for x in vs)
+
+
 def same(exp, got):
-    """exp/got: lists of Val|None.  None if they agree wherever exp is defined, else a message."""
+    """exp/got: lists from values_of.  None if they agree wherever both are well-conditioned, else a message."""
     for vi, (x, y) in enumerate(zip(exp, got)):
-        if x is None:
+        if not isinstance(x, X.Val) or y is FRAGILE:
             continue
         if y is None:
             return f'valuation {vi}: reference={x.v!r} parse_expr tree is undefined'
@@ -78,19 +88,20 @@ def same(exp, got):
 
 
 def pe_values(text, ctx, vals):
-    """(status, detail, values): status ok | exception:<Type> | illtyped"""
+    """(status, detail, values, type): status ok | exception:<Type> | illtyped"""
     from loki.expression.parser import parse_expr
     try:
         tree = parse_expr(text, scope=ctx['routine'])
     except Exception as e:   # pylint: disable=broad-except
-        return f'exception:{type(e).__name__}', f'{type(e).__name__}: {e}'[:200], None
+        return f'exception:{type(e).__name__}', f'{type(e).__name__}: {e}'[:200], None, None
     try:
         ast = X.from_loki(tree)
-        return 'ok', str(ast)[:600], values_of(ctx['ev'], ast, vals)
+        ty = X.static_type(ast, ctx['env'])
+        return 'ok', str(ast)[:600], values_of(ctx['ev'], ast, vals), ty
     except X.EvalError as e:
-        return 'illtyped', f'{e}; tree={tree!r}'[:400], None
+        return 'illtyped', f'{e}; tree={tree!r}'[:400], None, None
     except Exception as e:   # pylint: disable=broad-except
-        return 'illtyped', f'{type(e).__name__}: {e}; tree={tree!r}'[:400], None
+        return 'illtyped', f'{type(e).__name__}: {e}; tree={tree!r}'[:400], None, None
 
 
 # ------------------------------------------------------------------------------------------------------------
@@ -151,16 +162,18 @@ class Shrinker:
             exp = values_of(self.ev, a, self.vals)
         except X.EvalError:
             exp = None
-        if exp is not None and sum(x is not None for x in exp) >= 1:
+        if exp is not None and ndefined(exp) >= 1:
             text = X.surface_text(a)
             self.tests += 1
-            st, detail, got = pe_values(text, self.ctx, self.vals)
+            st, detail, got, ty = pe_values(text, self.ctx, self.vals)
             if st != 'ok':
                 res = (st, detail, text)
             else:
                 bad = same(exp, got)
                 if bad:
                     res = ('value', bad, text)
+                elif ty != X.static_type_safe(a, self.env):
+                    res = ('type', f'type {X.static_type_safe(a, self.env)} read as {ty}', text)
         self.cache[a] = res
         return res
 
@@ -174,7 +187,7 @@ class Shrinker:
             changed = False
             # 1. descend into a failing proper subtree
             for _p, n in sorted(X.subtrees(cur), key=lambda pn: X.size(pn[1])):
-                if n is not cur and X.size(n) < X.size(cur) and X.children(n) and self.fails(n) is not None:
+                if n is not cur and X.size(n) < X.size(cur) and (X.children(n) or n[0] in ('int', 'real')) and self.fails(n) is not None:
                     cur, changed = n, True
                     break
             if changed:
@@ -268,9 +281,14 @@ def classify(ctx, vals, text, ast, status, rng):
         # the canonical spelling of the same AST is read correctly: the trigger is lexical (case, spacing, spelling)
         glued = re.compile(r'(\d)(\.(?:eq|ne|lt|le|gt|ge|and|or|not|eqv|neqv)\.)', re.I)
         if glued.search(text):
-            st2, _d, got = pe_values(glued.sub(r'\1 \2', text), ctx, vals)
+            st2, _d, got, _t = pe_values(glued.sub(r'\1 \2', text), ctx, vals)
             if st2 == 'ok' and same(values_of(ctx['ev'], ast, vals), got) is None:
                 return 'parse:digit-glued-to-dot-operator', {'repaired_by_inserting_a_blank': glued.sub(r'\1 \2', text)}
+        if re.search(r',\s*jprb\s*\)', text, re.I):
+            fixed = re.sub(r',\s*jprb\s*\)', ', kind=jprb)', text, flags=re.I)
+            st2, _d, got, ty2 = pe_values(fixed, ctx, vals)
+            if st2 == 'ok' and same(values_of(ctx['ev'], ast, vals), got) is None and ty2 == X.static_type_safe(ast, env):
+                return 'parse:type:cast-positional-kind-dropped', {'repaired_by_kind_keyword': fixed}
         feats = []
         if re.search(r'[A-Z]', text):
             feats.append('upper-case')
@@ -294,6 +312,8 @@ def classify(ctx, vals, text, ast, status, rng):
         for rx, name in LEX:
             if rx.search(stext):
                 return f'parse:{st}:{name}', wit
+    if st == 'type' and small[0] == 'real' and 'd' in small[1].lower():
+        return 'parse:type:d-exponent-literal-read-as-default-real', wit
     m = COMP_RX.search(stext)
     if m and any(leaf_shape(n) in ('c', 'ca') for _p, n in X.subtrees(small)):
         return f'parse:component-swallows-operand-after({m.group(1)})', wit
@@ -330,7 +350,7 @@ def run_case(idx, rng, tier, ctx):
         except X.EvalError as e:
             res['inconclusive'] = f'generator produced an ill-typed string {text!r}: {e}'
             return res
-        if sum(x is not None for x in exp) < MINVALID:
+        if ndefined(exp) < MINVALID:
             bump('strings_regenerated_undefined')
             continue
         items.append({'text': text, 'ast': ast, 'exp': exp})
@@ -350,6 +370,9 @@ def run_case(idx, rng, tier, ctx):
         try:
             fa = X.from_loki(t)
             fv = values_of(ev, fa, vals)
+            it['refty'] = X.static_type(fa, env)
+            if it['refty'] != X.static_type(it['ast'], env):
+                raise X.IllTyped(f'frontend type {it["refty"]} differs from the grammar type')
         except X.EvalError as e:
             bump('discarded_frontend_tree_not_evaluable')
             it['skip'] = f'frontend tree not evaluable: {e}'[:200]
@@ -367,7 +390,7 @@ def run_case(idx, rng, tier, ctx):
         if use_gfortran:
             live = [it for it in items if it['ref'] is not None]
             fb = X.FortranBatch(env, vals, wd)
-            out = fb.evaluate([it['text'] for it in live], [[x is not None for x in it['ref']] for it in live])
+            out = fb.evaluate([it['text'] for it in live], [[isinstance(x, X.Val) for x in it['ref']] for it in live])
             bump('gfortran_batches', fb.compiles)
             for it, o in zip(live, out):
                 if not isinstance(o, dict):
@@ -376,7 +399,7 @@ def run_case(idx, rng, tier, ctx):
                     continue
                 bad = None
                 for vi, x in enumerate(it['ref']):
-                    if x is not None and not X.agree(x, o.get(vi)):
+                    if isinstance(x, X.Val) and not X.agree(x, o.get(vi)):
                         bad = f'valuation {vi}: frontend tree={x.v!r} gfortran={o.get(vi)!r}'
                         break
                 if bad:
@@ -393,10 +416,10 @@ def run_case(idx, rng, tier, ctx):
     for it in items:
         if it['ref'] is None:
             continue
-        st, detail, got = pe_values(it['text'], ctx, vals)
+        st, detail, got, ty = pe_values(it['text'], ctx, vals)
         compared += 1
         bump('strings_compared')
-        bump('valuations_compared', sum(x is not None for x in it['ref']))
+        bump('valuations_compared', ndefined(it['ref']))
         verdict = None
         if st != 'ok':
             verdict = f'{st}: {detail}'
@@ -404,11 +427,15 @@ def run_case(idx, rng, tier, ctx):
             bad = same(it['ref'], got)
             if bad:
                 st, verdict = 'value', bad
+            elif ty != it['refty']:
+                st, verdict = 'type', f'frontend tree has type {it["refty"]}, parse_expr tree has type {ty}'
         if verdict is None:
             continue
         bump('mismatching_strings')
         key, wit = classify(ctx, vals, it['text'], it['ast'], st, rng)
         wit = dict(wit, text=it['text'], grammar_ast=str(it['ast'])[:800], verdict=verdict[:400])
+        wit['slice'] = 'hostile' if hostile else 'main'
+        bump('mismatches_in_' + wit['slice'] + '_slice')
         res['violations'].append({'key': key, 'msg': f'parse_expr({it["text"]!r}): {verdict}'[:400], 'witness': wit})
     res['nontrivial'] = compared >= NSTR // 2
     res['features'] = sorted(feats)
